@@ -50,6 +50,13 @@ def family(rp):
     f.add("one-branch-with-else-used-after", "if True then\n    def x := 1\nelse\n    def y := 2\nprint(x)", "reject")
     f.add("undefined-in-for-body", "for i in 0 .. 3 do print(zz)", "reject")
     f.add("undefined-in-while-body", "while True do print(zz)", "reject")
+    f.add("comprehension-variable-in-own-iterable", "def limit := 4\ndef squares := [n * n | n in (0 .. n)]\n", "reject")
+    f.add("comprehension-variable-escapes", "def squares := [n * n | n in (0 .. 4)]\nprint(n)\n", "reject")
+    f.add("comprehension-statement-variable-escapes", "[n * n | n in (0 .. 4)]\nprint(n)\n", "reject")
+    f.add("comprehension-variable-in-element", "def squares := [n * n | n in (0 .. 4)]\n", "accept")
+    f.add("comprehension-variable-in-condition", "def squares := [n * n | n in (0 .. 4), n > 1]\n", "accept")
+    f.add("comprehension-set-variable-in-own-iterable", "def s := {m + 1 | m in (0 .. m)}\n", "reject")
+    f.add("comprehension-outer-name-in-iterable", "def limit := 4\ndef squares := [n * n | n in (0 .. limit)]\n", "accept")
     f.add("field-assigned-one-branch-only", "class X\n    def z: Int\n\n    def __init__(self) =>\n        if True then\n            self.z := 1\n        else\n            print(1)\n", "reject")
     f.add("field-assigned-both-branches", "class X\n    def z: Int\n\n    def __init__(self) =>\n        if True then\n            self.z := 1\n        else\n            self.z := 2\n", "accept")
     f.add("field-read-in-loop-before-assign", "class X\n    def z: Int\n\n    def __init__(self) =>\n        for i in 0 .. 2 do\n            print(self.z)\n        self.z := 1\n", "reject")
@@ -371,6 +378,91 @@ def ob_assigned_detection(run, mir, rp, fam):
     e2.prove(run, ob, ex, [], conj(claims), {}, fam.as_replay("assigned-detection:", only=["field-"]))
 
 
+COL_RS = ckern.GEN + "collection.rs"
+
+
+def ob_comprehension(run, mir, rp, fam):
+    ob = run.ob("flow-comprehension", "E2", "gen_builder (list / set / dict comprehension): the iterable of `x in col` is generated from the incoming "
+                "environment (the comprehension variable is not yet defined there), the element, the value of a dict pair and every further condition "
+                "are generated from the environment that defines the variable, and outside define-mode the incoming environment is returned "
+                "(the variable does not escape)", ["gen_builder"])
+    fn = e2.find1(mir, file=COL_RS, name="gen_builder")
+    mk_exec = lambda: Exec(mir, max_paths=20000, inline=[r"Environment::is_def_mode$"])
+    claims, n_ok = [], 0
+    ex = None
+    for with_pair in (False, True):
+        ex = mk_exec()
+        st = State()
+        mk = lambda n: Ref(ex.new_cell(st, ckern.mk_ast(n, opq(n + ".node", "Node"))[0]))
+        left, right, item, pair, ast = (mk(n) for n in ("left", "right", "item", "pair", "ast"))
+        cond_ast, _ = ckern.mk_ast("cond", ckern.mk_node("In", {"left": left, "right": right}))
+        condr = Ref(ex.new_cell(st, cond_ast))
+        conds = Ref(ex.new_cell(st, opq("conditions", "[AST]")))
+        ex.models.append((r"^core::slice::<impl \[AST\]>::first$", lambda ex_, st_, fr, callee, a, at, dty: Agg("Option", "Some", [condr])))
+        env, ev = ckern.sym_env(ex, st)
+        ctx, constr = ckern.refs(ex, st, "ctx", "constr")
+        ends = e2.run_kernel(run, ex, fn, [ast, item, Agg("Option", "Some", [pair]) if with_pair else Agg("Option", "None", []), conds, env, ctx, constr], st)
+        envv = ex.to_val(st, env)
+        for p in ends:
+            c = conj(p.cond)
+            s = p.state
+            if p.kind == "loop_back":
+                # conditions after the first: generated inside the loop from the defining environment
+                continue
+            if result_kind(p) != "Ok":
+                continue
+            n_ok += 1
+            gens = calls(p, "generate")
+            by = {}
+            for g in gens:
+                for nme, r_ in (("left", left), ("right", right), ("item", item), ("pair", pair)):
+                    if z3.eq(g["argvals"][0], ex.to_val(s, r_)):
+                        by.setdefault(nme, g)
+            look = calls(p, "constr_col_lookup")
+            if not all(k in by for k in ("left", "right", "item")) or len(look) != 1 or (with_pair and "pair" not in by):
+                claims.append(z3.Not(c))
+                continue
+            cenv = ex.to_val(s, ex.project(s, ex.project(s, look[0]["ret"], ("v", "Ok")), ("f", 0), "Environment"))
+            cl = [by["right"]["argvals"][1] == envv, by["item"]["argvals"][1] == cenv]
+            # the variable is defined by generating `left` in define mode from the incoming environment, before the element is looked at
+            lenv = by["left"]["args"][1]
+            lenv = ex.read_ref(s, lenv) if isinstance(lenv, Ref) else lenv
+            fields = e2.rust_struct(ckern.ENV_RS, "Environment")
+            if isinstance(lenv, Agg) and lenv.names == fields:
+                cl += [ex.to_val(s, v) == ex.to_val(s, ev[f]) for f, v in zip(fields, lenv.fields) if f != "is_def_mode"]
+                cl.append(lenv.fields[fields.index("is_def_mode")] == z3.BoolVal(True))
+            else:
+                cl.append(z3.BoolVal(False))
+            order = [g["name"] + str(id(g)) for g in p.events]
+            pos = {id(g): i for i, g in enumerate(p.events)}
+            cl.append(z3.BoolVal(pos[id(by["right"])] < pos[id(by["left"])] < pos[id(by["item"])]))
+            if with_pair:
+                cl.append(by["pair"]["argvals"][1] == cenv)
+            if result_kind(p) == "Ok":
+                rv = ex.to_val(s, p.ret.fields[0])
+                cl.append(z3.If(ev["is_def_mode"], rv == cenv, rv == envv))
+            claims.append(z3.Implies(c, conj(cl)))
+        # further conditions: inside the loop every generate call gets the defining environment
+        for p in ends:
+            if p.kind != "loop_back":
+                continue
+            s = p.state
+            look = calls(p, "constr_col_lookup")
+            known = [ex.to_val(s, r_) for r_ in (left, right, item, pair)]
+            extra = [g for g in calls(p, "generate") if not any(z3.eq(g["argvals"][0], k) for k in known)]
+            tr = calls(p, "ConstrBuilder::add_constr")
+            if len(look) != 1 or len(extra) != 1 or len(tr) != 1:
+                claims.append(z3.Not(conj(p.cond)))
+                continue
+            cenv = ex.to_val(s, ex.project(s, ex.project(s, look[0]["ret"], ("v", "Ok")), ("f", 0), "Environment"))
+            n_ok += 1
+            claims.append(z3.Implies(conj(p.cond), z3.And(extra[0]["argvals"][1] == cenv, tr[0]["argvals"][2] == cenv)))
+    if n_ok < 4:
+        raise Unsupported(f"only {n_ok} comprehension paths")
+    e2.prove(run, ob, ex, [], conj(claims), {}, fam.as_replay("flow-comprehension:", only=["comprehension-"]))
+    run.samples.append({"obligation": ob.id, "paths": n_ok})
+
+
 def ob_env_setters(run, mir, rp, fam):
     """Frame conditions of the Environment: every setter changes its own field and nothing else; shadow offsets."""
     ob = run.ob("environment-setters", "E2", "no Environment method that returns a modified copy changes the defined variables, the shadow table or the unassigned set "
@@ -560,7 +652,7 @@ def run(run):
                "outside: forward references between top-level definitions, comprehension variables, class scopes, match arms (constrain_cases loop)")
     run.trusted += ["rustc nightly MIR dump", "mirsym MIR semantics", "z3"]
     run.bounds = {"paths": "all paths, loops cut at headers"}
-    for f in (ob_lookup, ob_sequencing, ob_flow, ob_env_ops, ob_env_setters, ob_self_field, ob_assigned_detection):
+    for f in (ob_lookup, ob_sequencing, ob_flow, ob_comprehension, ob_env_ops, ob_env_setters, ob_self_field, ob_assigned_detection):
         try:
             f(run, mir, rp, fam)
         except Unsupported as e:
